@@ -1158,6 +1158,70 @@ fn garbage(w: &W, fmt: Fmt) -> Verdict {
     Ok(())
 }
 
+/// Every partition of one tiny BED file into read() chunks and of the writer's output into
+/// accepted write() chunks (files of up to 11, thorough: 16 bytes).
+fn bed_partitions(w: &W) -> Verdict {
+    let limit = if crate::world::thorough() { 16 } else { 11 };
+    let k = w.draw(2) as usize;
+    let mut models: Vec<BedModel> = vec![];
+    for _ in 0..2 {
+        models.push(BedModel {
+            chrom: w.pick(&["a", "", "\"", "é", ","]).to_string(),
+            start: w.draw(11),
+            end: *w.pick(&[0u64, 7, 10, 255]),
+            aux: (0..k).map(|_| w.pick(&["n", "", "\r", "\""]).to_string()).collect(),
+        });
+    }
+    let build = |ms: &[BedModel]| -> Workload {
+        Workload {
+            fmt: Fmt::Bed,
+            bed_recs: ms.iter().map(|b| b.to_record(0)).collect(),
+            bed: ms.to_vec(),
+            k,
+            gff: vec![],
+            gff_recs: vec![],
+        }
+    };
+    let mut wl = build(&models);
+    let mut written = producer_phase(w, &wl, IoCfg::CLEAN)?;
+    while written.len() > limit && !models.is_empty() {
+        models.pop();
+        wl = build(&models);
+        written = producer_phase(w, &wl, IoCfg::CLEAN)?;
+    }
+    if models.is_empty() || written.len() < 2 {
+        return Ok(());
+    }
+    w.probe("workload_nonempty");
+    w.probe("all_partitions_sweep");
+    w.fired("all_read_partitions");
+    w.fired("all_write_partitions");
+    let n = written.len();
+    if w.keep_trace {
+        w.note("workload", wl.json());
+        w.note("stored_image", json!(show(&written)));
+        w.note("sweep", json!(format!("all {} partitions of {} bytes, write side then read side", 1u64 << (n - 1), n)));
+    }
+    let data = Rc::new(written);
+    for mask in 0..(1u64 << (n - 1)) {
+        let io = IoCfg { chunk: crate::world::Chunk::Mask(mask), eintr_pm: 0, eio_pm: 0 };
+        if let Err(mut v) = producer_phase(w, &wl, io) {
+            v.message = format!("write partition mask {:#x}: {}", mask, v.message);
+            return Err(v);
+        }
+        w.clause("C13.a-bed");
+        let (items, ended, _) = read_bed(w, &data, io);
+        if !ended {
+            return fail("C13.f-livelock", format!("read partition mask {:#x}: iterator does not end", mask));
+        }
+        if let Err(mut v) = judge_roundtrip(w, &items, wl.len(), false, &|i, r| compare_item_bed(i, r, &wl), "C13.a-bed") {
+            v.message = format!("read partition mask {:#x} (bit i = a read ends at offset i+1) of {:?}: {}", mask, show(&data), v.message);
+            return Err(v);
+        }
+    }
+    Ok(())
+}
+
 fn pick_dialect(w: &W) -> Dialect {
     [Dialect::Gff3, Dialect::Gff2, Dialect::Gtf2][w.draw(3) as usize]
 }
@@ -1188,12 +1252,13 @@ pub fn property() -> Property {
     Property {
         id: "C13",
         scenarios: vec![
-            Scenario { name: "bed-roundtrip", weight: 3, run: bed_roundtrip },
-            Scenario { name: "gff-roundtrip", weight: 5, run: gff_roundtrip },
-            Scenario { name: "bed-damage", weight: 2, run: bed_damage },
-            Scenario { name: "gff-damage", weight: 3, run: gff_damage },
-            Scenario { name: "bed-garbage", weight: 1, run: bed_garbage },
-            Scenario { name: "gff-garbage", weight: 2, run: gff_garbage },
+            Scenario { name: "bed-roundtrip", weight: 12, run: bed_roundtrip },
+            Scenario { name: "gff-roundtrip", weight: 20, run: gff_roundtrip },
+            Scenario { name: "bed-damage", weight: 8, run: bed_damage },
+            Scenario { name: "gff-damage", weight: 12, run: gff_damage },
+            Scenario { name: "bed-garbage", weight: 4, run: bed_garbage },
+            Scenario { name: "gff-garbage", weight: 8, run: gff_garbage },
+            Scenario { name: "bed-partitions", weight: 1, run: bed_partitions },
         ],
         panic_clause: "C13.f-nopanic",
         livelock_clause: "C13.f-livelock",
@@ -1208,7 +1273,7 @@ pub fn property() -> Property {
         ],
         expected_probes: &[
             "multi_valued_attribute", "key_order_differs_from_insertion", "quoted_csv_field", "csv_field_or_line_split_across_reads",
-            "damage_bad_number", "damage_bad_phase", "damage_phase_in_u8_range", "damage_column_missing", "damage_column_added", "eintr_surfaced_by_reader", "many_records_regime", "first_column_starts_with_hash", "field_with_tab_or_line_feed", "many_values_record", "records_iterator_restarted", "damaged_line_follows_comment", "damaged_last_line_without_newline",
+            "damage_bad_number", "damage_bad_phase", "damage_phase_in_u8_range", "damage_column_missing", "damage_column_added", "eintr_surfaced_by_reader", "many_records_regime", "all_partitions_sweep", "first_column_starts_with_hash", "field_with_tab_or_line_feed", "many_values_record", "records_iterator_restarted", "damaged_line_follows_comment", "damaged_last_line_without_newline",
         ],
         quick_runs: 300_000,
         thorough_runs: 20_000_000,
